@@ -52,8 +52,41 @@ def valAt : Path → JV → Option JV
     | some c => valAt p c
     | none => none
 
-/-- the locations a path selects — the same ones Get returns the values of -/
-def locs (x : List Frag) (d : JV) : List Path := (eval x d).map (·.1)
+/-- a reading of slices: the indexes `[s:e:t]` selects in an array of length `n`, in selection order -/
+abbrev SliceFn := Nat → Option Int → Option Int → Option Int → List Nat
+
+/-- `JPath.sel` with the reading `σ` of slices (`selG sliceIdx = sel`, `selG_spec`) -/
+def selG (σ : SliceFn) : Frag → JV → List (Path × JV)
+  | .slice s e t, v =>
+    match v with
+    | .arr xs => (σ xs.length s e t).flatMap fun j => (xs[j]?).toList.map fun c => ([.idx j], c)
+    | _ => []
+  | f, v => sel f v
+
+/-- `JPath.eval` with the reading `σ` of slices -/
+def evalG (σ : SliceFn) : List Frag → JV → List (Path × JV)
+  | [], v => [([], v)]
+  | f :: r, v => (selG σ f v).flatMap fun m => (evalG σ r m.2).map fun q => (m.1 ++ q.1, q.2)
+
+theorem selG_spec (f : Frag) (v : JV) : selG sliceIdx f v = sel f v := by
+  cases f <;> rfl
+
+theorem evalG_spec : ∀ (x : List Frag) (v : JV), evalG sliceIdx x v = eval x v
+  | [], _ => rfl
+  | f :: r, v => by
+    simp only [evalG, eval, selG_spec]
+    congr 1
+    funext m
+    rw [evalG_spec r m.2]
+
+/-- the locations a path selects under the reading `σ` of slices -/
+def locsG (σ : SliceFn) (x : List Frag) (d : JV) : List Path := (evalG σ x d).map (·.1)
+
+/-- the locations a path selects — the same ones Get returns the values of (`JPath.eval`, `locs_eq_eval`) -/
+def locs (x : List Frag) (d : JV) : List Path := locsG sliceIdx x d
+
+theorem locs_eq_eval (x : List Frag) (d : JV) : locs x d = (eval x d).map (·.1) := by
+  simp [locs, locsG, evalG_spec]
 
 /-- the locations of `T` below the step `l`, relative to it -/
 def strip (l : Loc) (T : List Path) : List Path :=
@@ -175,15 +208,18 @@ def ownCreates (v : JV) (f : Frag) (r : List Frag) (d : JV) : List (Path × JV) 
     if r.isEmpty then ((unionKeys ms).filter fun k => (lookup k kvs).isNone).map fun k => ([Loc.key k], v) else []
   | _, _ => []
 
-/-- every member Set creates, with its content -/
-def creates (v : JV) : List Frag → JV → List (Path × JV)
+/-- every member Set creates, with its content (reading `σ` of slices) -/
+def createsG (σ : SliceFn) (v : JV) : List Frag → JV → List (Path × JV)
   | [], _ => []
   | f :: r, d =>
-    ownCreates v f r d ++ (sel f d).flatMap fun m => (creates v r m.2).map fun c => (m.1 ++ c.1, c.2)
+    ownCreates v f r d ++ (selG σ f d).flatMap fun m => (createsG σ v r m.2).map fun c => (m.1 ++ c.1, c.2)
+
+/-- every member Set creates, with its content -/
+def creates (v : JV) : List Frag → JV → List (Path × JV) := createsG sliceIdx v
 
 /-- the locations at which Set may add a member, whether or not the request can be completed (frame of
 an erroneous Set: `$.a[1].b` on `{}` adds `a: [null, null]` and then reports that it can not go on) -/
-def createRoots : List Frag → JV → List Path
+def createRootsG (σ : SliceFn) : List Frag → JV → List Path
   | [], _ => []
   | f :: r, d =>
     (match f, d with
@@ -191,7 +227,9 @@ def createRoots : List Frag → JV → List Path
       | .union ms, .obj kvs =>
         if r.isEmpty then ((unionKeys ms).filter fun k => (lookup k kvs).isNone).map fun k => [Loc.key k] else []
       | _, _ => []) ++
-    (sel f d).flatMap fun m => (createRoots r m.2).map fun c => m.1 ++ c
+    (selG σ f d).flatMap fun m => (createRootsG σ r m.2).map fun c => m.1 ++ c
+
+def createRoots : List Frag → JV → List Path := createRootsG sliceIdx
 
 /-- the creations below the step `l`, relative to it -/
 def stripC (l : Loc) (C : List (Path × JV)) : List (Path × JV) :=
@@ -237,14 +275,23 @@ abbrev Modifier := JV → JV × Bool
 /-- what a modifier does to a value -/
 def Modifier.eff (m : Modifier) (v : JV) : JV := if (m v).2 then (m v).1 else v
 
-def setSpec (x : List Frag) (v : JV) (d : JV) : JV :=
-  updAll (fun _ => v) (locs x d) (insAll (creates v x d) d)
+def setSpecG (σ : SliceFn) (x : List Frag) (v : JV) (d : JV) : JV :=
+  updAll (fun _ => v) (locsG σ x d) (insAll (createsG σ v x d) d)
 
-def delSpec (x : List Frag) (d : JV) : JV := delAll (locs x d) d
+def delSpecG (σ : SliceFn) (x : List Frag) (d : JV) : JV := delAll (locsG σ x d) d
 
-def removeSpec (x : List Frag) (d : JV) : JV := remAll (locs x d) d
+def removeSpecG (σ : SliceFn) (x : List Frag) (d : JV) : JV := remAll (locsG σ x d) d
 
-def modifySpec (x : List Frag) (m : Modifier) (d : JV) : JV := updAll m.eff (locs x d) d
+def modifySpecG (σ : SliceFn) (x : List Frag) (m : Modifier) (d : JV) : JV := updAll m.eff (locsG σ x d) d
+
+/-- the four mutators under the specification's reading of slices (the property) -/
+def setSpec (x : List Frag) (v : JV) (d : JV) : JV := setSpecG sliceIdx x v d
+
+def delSpec (x : List Frag) (d : JV) : JV := delSpecG sliceIdx x d
+
+def removeSpec (x : List Frag) (d : JV) : JV := removeSpecG sliceIdx x d
+
+def modifySpec (x : List Frag) (m : Modifier) (d : JV) : JV := modifySpecG sliceIdx x m d
 
 /-- a mutation: Set with a value, Del, Modify with a modifier, Remove -/
 inductive Op where
@@ -253,12 +300,15 @@ inductive Op where
   | mod (m : Modifier)
   | rem
 
+/-- the tree a mutation (all matches) must leave under the reading `σ` of slices -/
+def expectedG (σ : SliceFn) (x : List Frag) (d : JV) : Op → JV
+  | .set v => setSpecG σ x v d
+  | .del => delSpecG σ x d
+  | .mod m => modifySpecG σ x m d
+  | .rem => removeSpecG σ x d
+
 /-- the tree the property demands after the mutation (all matches) -/
-def expected (x : List Frag) (d : JV) : Op → JV
-  | .set v => setSpec x v d
-  | .del => delSpec x d
-  | .mod m => modifySpec x m d
-  | .rem => removeSpec x d
+def expected (x : List Frag) (d : JV) : Op → JV := expectedG sliceIdx x d
 
 /-- the locations outside which nothing may change, whatever the outcome (for Remove the containers of the
 selected members: positions inside them shift) -/
